@@ -48,6 +48,8 @@ SUBS = [
     ("LLback", "{M} l4,7 l-4,-7"), ("LLbackz", "{M} l4,7 l-4,-7 z"), ("LLLLback", "{M} l4,0 l0,3 l0,-3 l-4,0"),
     ("QQback", "{M} q2,3 5,1 q-3,2 -5,-1"), ("CCback", "{M} c1,2 3,4 5,1 c-2,3 -4,1 -5,-1"),
     ("LQQLback", "{M} l4,7 q2,3 5,1 q-3,2 -5,-1 l-4,-7 z"),
+    # closing edges that are short but not zero (5e-4 and 1e-7 user units)
+    ("nearclose", "{M} l4,7 l3,-2 l-7,-4.9995 z"), ("nearclose7", "{M} q4,7 3,-2 l-3,2.0000001 z"),
 ]
 NOMOVE_OK = ["L", "LL", "LLz", "Q", "C", "A", "AL", "QTz", "z-only", "Lz"]      # usable right after a close without own move
 STARTS = ["M3,-2", "M10,1", "m-6,4"]
@@ -86,10 +88,21 @@ def build_paths(tier):
     # paths assembled from segment objects: a leading subpath without any move (a fragment), of one or two segments
     for nm in ("line", "arc", "quad", "cubic", "quad-line", "arc+M", "line-line+Mz"):
         paths.append(("fragment:" + nm, "obj:" + nm))
+    # the closed outlines again at magnitudes 1e-3 and 1e5 (size-dependent epsilons in the re-linking of moves and closes)
+    for mag in ("1e-3", "1e-4", "1e5"):
+        for a in ("LLz", "QTz", "CSz", "ALz", "HVz", "LLbackz"):
+            paths.append(("mag%s:%s" % (mag, a), "mag:%s:%s" % (mag, txt[a].format(M=STARTS[0]).strip())))
+        paths.append(("mag%s:LLz+CSz" % mag, "mag:%s:%s" % (mag, (txt["LLz"].format(M=STARTS[0]) + " " + txt["CSz"].format(M=STARTS[1])).strip())))
+    # a path that carries a transform and paint of its own (reverse() must hand back that path, not a bare scratch copy)
+    paths.append(("transformed", "obj:transformed"))
     return paths
 
 
 def make_path(svg, d):
+    if d.startswith("mag:"):
+        _, mag, text = d.split(":", 2)
+        m = float(mag)
+        return abs(svg.Path(text) * svg.Matrix(m, 0, 0, m, 0, 0))
     if not d.startswith("obj:"):
         return svg.Path(d)
     P = svg.Point
@@ -106,6 +119,8 @@ def make_path(svg, d):
         return svg.Path(svg.QuadraticBezier(P(3, -2), P(7, 5), P(-4, 1.5)), svg.Line(P(-4, 1.5), P(0, 9)))
     if k == "arc+M":
         return svg.Path(svg.Arc(P(3, -2), 8.5, 3.5, -45, 0, 1, P(7, 5))) + "M10,1 L7,5 L-4,1.5"
+    if k == "transformed":
+        return svg.Path("M3,-2 L7,5 L-4,1.5 z M10,1 Q7,5 -4,1.5 L2,2", transform="rotate(30) scale(2,1)", stroke="red", fill="none")
     if k == "line-line+Mz":
         return svg.Path(svg.Line(P(3, -2), P(7, 5)), svg.Line(P(7, 5), P(0, 9))) + "M10,1 l4,0 l0,3 z"
     raise ValueError(d)
@@ -263,8 +278,10 @@ class Histories(SubCheck):
         for ev in hist:
             if ev.startswith("sub") and int(ev[3:]) >= nsub:
                 return out
+        if not p.transform.is_identity() and any(e.startswith("mul") for e in hist):
+            return out      # the transform events reify; a path with a pending transform of its own is reversed only
         model = structure(svg, make_path(svg, d))
-        S = 1.0
+        S = 1e-300
         for s in model:
             for k, pts in s["curves"]:
                 for q in pts:
@@ -281,7 +298,15 @@ class Histories(SubCheck):
             tg = dict(step=step, event=ev, **tags)
             try:
                 if ev == "rev":
-                    p.reverse()
+                    ret = p.reverse()
+                    if ret is not None and ret is not p:
+                        # a returned object stands for the reversed path: same geometry, transform and paint
+                        same = (snapshot(list(ret)) == snapshot(list(p)) and repr(getattr(ret, "transform", None)) == repr(p.transform)
+                                and repr(getattr(ret, "stroke", None)) == repr(p.stroke) and repr(getattr(ret, "fill", None)) == repr(p.fill))
+                        if not same:
+                            out.fail("reverse() returned an object that is not the reversed path (transform / paint / segments differ)",
+                                     [repr(p.transform), repr(p.stroke)], [repr(getattr(ret, "transform", None)), repr(getattr(ret, "stroke", None))],
+                                     kind="return-value", **tg)
                     model = [m_reverse_sub(s) for s in reversed(model)]
                 elif ev.startswith("sub"):
                     i = int(ev[3:])
